@@ -58,7 +58,7 @@ func Mix(vals ...uint64) uint64 {
 	var s uint64 = 0x243f6a8885a308d3
 	for _, v := range vals {
 		s ^= v
-		splitmix(&s)
+		s = splitmix(&s) // the mixed output becomes the state: Mix(1, x, 2) and Mix(3, x, 0) are unrelated
 	}
 	return splitmix(&s)
 }
